@@ -718,6 +718,19 @@ func rankLeaves(c *Ctx, cr *collRoles) []rankLeaf {
 					return true
 				}
 				t0 := info.TypeOf(call.Args[0])
+				// a helper that ranks by presence (IsNil / IsValid of the operands) is a nil ladder, not a leaf
+				presence := false
+				for _, a := range call.Args {
+					ast.Inspect(resolveInit(info, fd, a), func(y ast.Node) bool {
+						if _, mname, _, ok := methodCall(y); ok && (mname == "IsNil" || mname == "IsValid") {
+							presence = true
+						}
+						return true
+					})
+				}
+				if presence {
+					return true
+				}
 				if t0 != nil && basicClass(t0) != "" && types.Identical(t0, info.TypeOf(call.Args[1])) {
 					add(basicClass(t0), d)
 				} else if depth < 1 && isNamedFrom(t0, "reflect", "Value") {
